@@ -88,3 +88,41 @@ Theorem C16_merged_data_blank_elsewhere : forall ins,
   all_none (slice v (doff ins k (lcell l)) (isize i (lcell l))) = true.
 Proof. exact merged_data_blank. Qed.
 Print Assumptions C16_merged_data_blank_elsewhere.
+
+(* Nothing is added: every merged vertex is a vertex of exactly the input whose range it falls in (the converse of
+   C16_merged_vertices), and the count is the sum of the inputs' counts. *)
+Theorem C16_vertices_complete : forall ins,
+  length (merge_verts ins) = list_sum (map (fun i => length (vs i)) ins)
+  /\ forall p, p < length (merge_verts ins) ->
+       exists k i v, nth_error ins k = Some i /\ v < length (vs i) /\ p = voff ins k + v.
+Proof. intros ins. split; [apply merge_verts_length | apply verts_decompose]. Qed.
+Print Assumptions C16_vertices_complete.
+
+(* The code's own offset rule (largest referenced index + 1), also on the inputs where it departs from the
+   specification (C16_cells_refuted): it never overshoots, so every cell of the merged object references an existing
+   merged vertex, and the number of cells is the sum of the inputs' — the defect misplaces cells, it cannot make the
+   stored object ill-formed.  Hypotheses: in-range cells and at least one vertex per input (what the object classes
+   enforce). *)
+Theorem C16_code_cells_in_range : forall ins,
+  Forall inp_ok ins -> Forall (fun i => 0 < length (vs i)) ins ->
+  Forall (cell_ok (length (merge_verts ins))) (merge_cells ins)
+  /\ length (merge_cells ins) = length (concat (map cs ins)).
+Proof. intros ins H1 H2. split; [apply code_cells_in_range; assumption | apply merge_cells_from_length]. Qed.
+Print Assumptions C16_code_cells_in_range.
+
+(* Unit law: merging a single input reproduces its vertices and cells (code and specification). *)
+Theorem C16_merge_single : forall i, merge_verts [i] = vs i /\ merge_cells [i] = cs i /\ merge_cells_spec [i] = cs i.
+Proof. exact merge_single. Qed.
+Print Assumptions C16_merge_single.
+
+(* Append law: merging a longer list extends the merge of its prefix (vertices of earlier inputs never move). *)
+Theorem C16_vertices_append : forall a b, merge_verts (a ++ b) = merge_verts a ++ merge_verts b.
+Proof. exact merge_verts_app. Qed.
+Print Assumptions C16_vertices_append.
+
+Example C16_in_range_nonvacuous :
+  let ins := [ {| vs := [(0,0,0); (1,0,0); (2,0,0)]%Z; cs := [[0;1]]; ds := [] |};
+               {| vs := [(0,1,0); (1,1,0)]%Z; cs := [[0;1]]; ds := [] |} ] in
+  Forall inp_ok ins /\ Forall (fun i => 0 < length (vs i)) ins
+  /\ merge_cells ins = [[0;1];[2;3]] /\ merge_cells_spec ins = [[0;1];[3;4]].
+Proof. repeat split; repeat constructor. Qed.
